@@ -157,7 +157,7 @@ def values_equal(ex, x, y):
         return to_z3_bool(x) == to_z3_bool(y)
     if isinstance(x, Opaque) and isinstance(y, Opaque):
         if is_sym(x.tag) or is_sym(y.tag):
-            if is_sym(x.tag) and is_sym(y.tag) and x.tag.sort() == y.tag.sort(): return x.tag == y.tag
+            if is_sym(x.tag) and is_sym(y.tag) and x.tag.sort() == y.tag.sort(): return True if x.tag.eq(y.tag) else x.tag == y.tag
             raise Unmodelled(f'equality of opaque values of different kinds {x} {y}')
         return x.tag == y.tag
     if isinstance(x, Agg) and isinstance(y, Agg):
@@ -1414,6 +1414,62 @@ def M_mem_take(ex, n, a):
 def M_drop(ex, n, a): return UNIT
 
 
+# ---- bit_vec::BitVec
+def bvrecv(a):
+    v = deref_all(a[0]) if a else None
+    return v if isinstance(v, BitVecV) else None
+
+
+def B_from_elem(ex, n, a):
+    if 'BitVec' not in n: return NotImplemented
+    if not a[0].concrete: raise Unmodelled('BitVec::from_elem with symbolic length')
+    return BitVecV([a[1]] * a[0].e)
+
+
+def B_none(ex, n, a):
+    v = bvrecv(a)
+    if v is None: return NotImplemented
+    return b_not(b_or(*v.bits)) if v.bits else True
+
+
+def B_any(ex, n, a):
+    v = bvrecv(a)
+    if v is None:
+        return I_any(ex, n, a)
+    return b_or(*v.bits) if v.bits else False
+
+
+def B_all(ex, n, a):
+    v = bvrecv(a)
+    if v is None:
+        return I_all(ex, n, a)
+    return b_and(*v.bits) if v.bits else True
+
+
+def _bv_binop(op):
+    def f(ex, n, a):
+        v = bvrecv(a)
+        if v is None: return NotImplemented
+        o = deref_all(a[1])
+        if len(v.bits) != len(o.bits):
+            raise Panic('assertion `left == right` failed (BitVec length mismatch)')
+        new = [op(x, y) for x, y in zip(v.bits, o.bits)]
+        changed = b_or(*[b_not(values_equal(ex, x, y)) for x, y in zip(v.bits, new)]) if new else False
+        v.bits[:] = new
+        return changed
+    return f
+
+
+def B_set(ex, n, a):
+    v = bvrecv(a)
+    if v is None: return NotImplemented
+    idx = a[1]
+    if not ex.branch(num_cmp('Lt', idx, u64(len(v.bits)))): raise Panic('index out of bounds (BitVec::set)')
+    k = ex.concretize_index(idx, len(v.bits))
+    v.bits[k] = a[2]
+    return UNIT
+
+
 METHODS = {
     'len': [M_len], 'is_empty': [M_is_empty], 'index': [M_index], 'index_mut': [M_index], 'get': [M_get], 'get_mut': [M_get_mut],
     'contains_key': [M_contains_key], 'contains': [M_contains], 'insert': [M_insert], 'remove': [M_remove], 'push': [M_push], 'push_back': [M_push],
@@ -1424,7 +1480,7 @@ METHODS = {
     'into_iter': [M_into_iter], 'entry': [M_entry], 'or_default': [M_or_default], 'or_insert': [M_or_insert], 'or_insert_with': [M_or_insert_with],
     'next': [M_next], 'enumerate': [I_enumerate], 'map': [I_map], 'filter': [I_filter], 'filter_map': [I_filter_map], 'flat_map': [I_flat_map], 'flatten': [I_flatten],
     'zip': [I_zip], 'chain': [I_chain], 'rev': [I_rev], 'take': [O_take], 'skip': [I_skip], 'cloned': [O_cloned], 'copied': [O_copied], 'peekable': [I_peekable], 'by_ref': [I_by_ref],
-    'fold': [I_fold], 'for_each': [I_for_each], 'count': [I_count], 'sum': [I_sum], 'all': [I_all], 'any': [I_any], 'find': [I_find], 'find_map': [I_find_map], 'position': [I_position],
+    'fold': [I_fold], 'for_each': [I_for_each], 'count': [I_count], 'sum': [I_sum], 'all': [B_all], 'any': [B_any], 'find': [I_find], 'find_map': [I_find_map], 'position': [I_position],
     'nth': [I_nth], 'max_by_key': [I_max_by_key], 'min_by_key': [I_min_by_key], 'max': [I_max, C_max], 'min': [I_min, C_min], 'max_by': [I_max_by], 'min_by': [I_min_by],
     'collect': [I_collect], 'from_iter': [I_collect], 'extend': [I_extend],
     'unwrap': [O_unwrap], 'expect': [O_expect], 'unwrap_err': [O_unwrap_err], 'is_some': [O_is_some], 'is_none': [O_is_none], 'is_ok': [O_is_ok], 'is_err': [O_is_err],
@@ -1440,6 +1496,7 @@ METHODS = {
     'from': [N_from], 'try_from': [N_try_from], 'into': [N_from],
     'new': [M_new], 'default': [M_default], 'with_capacity': [M_with_capacity], 'deref': [M_deref], 'deref_mut': [M_deref], 'borrow': [M_deref], 'borrow_mut': [M_deref],
     'to_vec': [M_to_vec], 'as_slice': [M_as_slice], 'as_mut_slice': [M_as_slice], 'swap': [M_swap], 'drop': [M_drop],
+    'from_elem': [B_from_elem], 'none': [B_none], 'and': [_bv_binop(lambda x, y: b_and(x, y))], 'or': [_bv_binop(lambda x, y: b_or(x, y))], 'set': [B_set],
     'into_future': [identity], 'new_unchecked': [identity], 'into_inner': [], 'get_unchecked_mut': [identity], 'as_mut_': [],
 }
 
